@@ -492,6 +492,27 @@ def reshape_order_fails(case):
     return None
 
 
+def like_dtype_fails(case):
+    """zeros_like / ones_like of a polynomial with an explicit NumPy dtype (numpy.zeros_like(a, dtype=...)): still a polynomial with
+    the same (D, P) and shape, every coefficient slice what NumPy returns for that slice (ones: the constant one)"""
+    x = np.array(case['x'])
+    dt = np.dtype(case['dtype'])
+    f = algopy.zeros_like if case['fn'] == 'zeros_like' else algopy.ones_like
+    try:
+        y = f(UTPM(x.copy()), dtype=dt if case['form'] == 'dtype' else dt.type)
+    except Exception as ex:
+        return 'like-dtype-exception: algopy.%s(x, dtype=%s) raised %s' % (case['fn'], dt, type(ex).__name__ + ':' + str(ex)[:60])
+    if not isinstance(y, UTPM) or y.data.shape != x.shape or y.data.dtype != dt:
+        return 'like-dtype: algopy.%s(x, dtype=%s) is %s of data shape %s / dtype %s, expected a polynomial of data shape %s and that dtype' % (
+            case['fn'], dt, type(y).__name__, getattr(getattr(y, 'data', None), 'shape', np.shape(y)), getattr(getattr(y, 'data', None), 'dtype', None), x.shape)
+    want = np.zeros(x.shape, dtype=dt)
+    if case['fn'] == 'ones_like':
+        want[0] = 1
+    if not np.array_equal(y.data, want):
+        return 'like-dtype-value: algopy.%s(x, dtype=%s) does not hold the constant polynomial' % (case['fn'], dt)
+    return None
+
+
 def traced_form_fails(case):
     """call forms of NumPy's signatures that the polynomial accepts are accepted on a traced polynomial, with the same value"""
     x = np.array(case['x'])
@@ -515,6 +536,8 @@ def replay_case(ctx, case):
         return traced_form_fails(case)
     if case.get('op') == 'reshape-order':
         return reshape_order_fails(case)
+    if case.get('op') == 'like-dtype':
+        return like_dtype_fails(case)
     if case.get('op') == 'utpclass-table':
         import utpcheck
         return utpcheck.replay(case)
@@ -531,6 +554,15 @@ def run(ctx):
     import utpcheck
     utpcheck.run(ctx, 'C13')
     rng = ctx.rng
+    for fn_ in ('zeros_like', 'ones_like'):
+        for dt_ in ('complex128', 'float64', 'float32'):
+            for form_ in ('dtype', 'type'):
+                case = {'op': 'like-dtype', 'fn': fn_, 'dtype': dt_, 'form': form_, 'D': 2, 'P': 2, 'x': rand_coeffs(rng, (2, 2, 3), -2, 2)}
+                ctx.evaluations += 1
+                ctx.count('like-with-dtype')
+                f_ = like_dtype_fails(case)
+                if f_:
+                    ctx.report(case, 'failure', f_)
     for form_ in sorted(ORDER_FORMS):
         for shp_ in ((3, 2), (6,), (1, 6)):
             case = {'op': 'reshape-order', 'form': form_, 'shape': list(shp_), 'D': 2, 'P': 2, 'x': intdata(rng, (2, 2, 2, 3))}
